@@ -514,6 +514,11 @@ class Frame:
                 for i in range(n):
                     cols[i].append((g, items[i]))
             return [mk_pw(c) for c in cols]
+        if isinstance(v, Vec) and v.kind == "point" and v.items and isinstance(v.items[0], Rat) and v.items[0].is_array() \
+                and not (len(v.items) == n and False):
+            # rows of an array of points
+            if not any(isinstance(e, ast.Starred) for e in getattr(node, "elts", [])):
+                return [Vec([self._at(c, Rat.const(k)) for c in v.items], "point") for k in range(n)]
         if isinstance(v, Vec):
             has_star = any(isinstance(e, ast.Starred) for e in node.elts) if hasattr(node, "elts") else False
             if has_star:
@@ -694,6 +699,12 @@ class Frame:
                 return g_not(g_atom(("in", ka, kb)))
             else:
                 return g_atom(("cmp", opname, ka, kb))
+            for u, w in ((a, b), (b, a)):
+                if isinstance(u, Obj) and u.tag == "none" and isinstance(w, Rat):
+                    ats = w.atoms()
+                    bare = len(ats) == 1 and ats[0].kind == "sym" and w.equals(Rat.from_atom(ats[0]))
+                    if not bare:
+                        return FALSE if pos else TRUE      # a computed number is never None
             if isinstance(a, Obj) and isinstance(b, Obj) and a.tag in ("enum", "none", "str") and b.tag in ("enum", "none", "str"):
                 same = ka == kb
                 return (TRUE if same else FALSE) if pos else (FALSE if same else TRUE)
@@ -805,6 +816,21 @@ class Frame:
         """Element of an element-wise expression = the expression of the elements."""
         if not arr.is_array():
             return anf.opaque("item", arr, idx, array=False)
+        ats = arr.atoms()
+        if len(ats) == 1 and ats[0].kind == "fn" and ats[0].name == "slice" and arr.equals(Rat.from_atom(ats[0])):
+            base, lo, hi = ats[0].args
+            c = idx.is_const()
+            if c is not None and c >= 0:
+                lo_v = Rat.const(0) if lo.symbols() == {"None"} else lo
+                lc = lo_v.is_const()
+                if lc is None or lc >= 0:
+                    return self._at(base, lo_v.add(idx))
+            if c is not None and c < 0:
+                if hi.symbols() == {"None"}:
+                    return self._at(base, idx)
+                hc = hi.is_const()
+                if hc is None or hc >= 0:
+                    return self._at(base, hi.add(idx))
         mapping = {}
         for a in arr.all_atoms():
             if a.kind == "sym" and a.array:
